@@ -161,6 +161,7 @@ def run(tier, replay_file=None):
     subschema_kinds(chk, ex, b, explore)
     annotations(chk, ex, b, explore)
     extract_description(chk, ex, b)
+    reference_closure(chk, ex, b)
     witnesses(chk)
     return chk.finish('one obligation per (instance kind, keyword-presence shape, execution path, clause)')
 
@@ -553,6 +554,126 @@ def extract_description(chk, ex, b):
             chk.counterexample(f'schema_extract_description({tag}) returned ({got_d}, {str(got_s)[:300]}); as a response header {schema} is published as {hdr}: {lost[:4]}',
                                case, bool(lost), role='extract-description')
     if seen != {'unwrapped', 'kept'}: raise Inconclusive(f'vacuity: schema_extract_description outcomes {seen}')
+
+
+def reference_closure(chk, ex, b):
+    """schema_util::ReferenceVisitor (which named schemas a parameter / header schema drags into components.schemas): from a schema that
+    refers to X, the collected dependencies are exactly the definitions reachable through `$ref`s - also when a definition is itself
+    nothing but a `$ref`, also through array items / properties / allOf members, each once, and cycles terminate.
+    schemars::visit::{visit_schema, visit_schema_object} are replaced by their documented traversal (children of the object: subschema
+    lists, array items, object properties, additionalProperties)."""
+    f = ex.fns
+    F_visit = [n for n in f if re.search(r'^schema_util::<impl at [^>]*>::visit_schema_object$', n) and 'ReferenceVisitor' in f[n].locals.get('_1', '')]
+    if len(F_visit) != 1: raise Inconclusive(f'cannot locate ReferenceVisitor::visit_schema_object: {F_visit}')
+    PREFIX = '#/components/schemas/'
+    if 'SchemaSettings' not in ex.L.structs:
+        lock = open(os.path.join(REPO, 'Cargo.lock')).read()
+        for v in re.findall(r'name = "schemars"\nversion = "([^"]+)"', lock):
+            for p_ in glob.glob(os.path.expanduser(f'~/.cargo/registry/src/*/schemars-{v}/src/gen.rs')): ex.L.add_source(p_, only={'SchemaSettings'})
+        if 'SchemaSettings' not in ex.L.structs: raise Inconclusive('layout of schemars::gen::SchemaSettings not found')
+    def ref(name): return b.schema(b.schema_object(reference=ex.some(PREFIX + name)))
+    def leaf(): return b.schema(b.typed('Integer'))
+    def arr_of(s_): return b.schema(b.typed('Array', array=ex.some(b.boxed(ex.mk_struct('ArrayValidation', items=ex.some(ex.mk_enum('SingleOrVec', 'Single', [b.boxed(s_)])), additional_items=ex.none(),
+                                                                                          max_items=ex.none(), min_items=ex.none(), unique_items=ex.none(), contains=ex.none())))))
+    def obj_of(**props):
+        pm = PMap()
+        for k_, v_ in props.items(): pm.put(k_, v_)
+        return b.schema(b.typed('Object', object=ex.some(b.boxed(ex.mk_struct('ObjectValidation', max_properties=ex.none(), min_properties=ex.none(), required=PSet(), properties=pm,
+                                                                             pattern_properties=PMap(), additional_properties=ex.none(), property_names=ex.none())))))
+    def all_of(*ms):
+        d = dict(all_of=ex.some(PVec([Cell(m_) for m_ in ms])), any_of=ex.none(), one_of=ex.none(), **{'not': ex.none()}, if_schema=ex.none(), then_schema=ex.none(), else_schema=ex.none())
+        return b.schema(b.schema_object(subschemas=ex.some(b.boxed(ex.mk_struct('SubschemaValidation', **d)))))
+    # (name, definitions, root schema builder, expected dependency names)
+    worlds = [
+        ('leaf-def', lambda: {'A': leaf()}, lambda: ref('A'), {'A'}),
+        ('bare-ref-def', lambda: {'A': ref('B'), 'B': leaf()}, lambda: ref('A'), {'A', 'B'}),
+        ('chain-of-three', lambda: {'A': ref('B'), 'B': ref('C'), 'C': leaf()}, lambda: ref('A'), {'A', 'B', 'C'}),
+        ('through-array', lambda: {'A': arr_of(ref('B')), 'B': leaf(), 'Z': leaf()}, lambda: ref('A'), {'A', 'B'}),
+        ('through-properties', lambda: {'A': obj_of(p=ref('B'), q=ref('C')), 'B': leaf(), 'C': ref('B')}, lambda: ref('A'), {'A', 'B', 'C'}),
+        ('through-allof', lambda: {'A': all_of(ref('B'), leaf()), 'B': leaf()}, lambda: all_of(ref('A'), ref('B')), {'A', 'B'}),
+        ('cycle', lambda: {'A': obj_of(next=ref('B')), 'B': obj_of(back=ref('A'))}, lambda: arr_of(ref('A')), {'A', 'B'}),
+        ('no-ref', lambda: {'A': leaf()}, lambda: arr_of(leaf()), set()),
+    ]
+    def children(obj):
+        """direct sub-schemas of a SchemaObject, as schemars::visit::visit_schema_object walks them (cells, so that visitors can mutate)"""
+        out = []
+        def opt(c):
+            v = dv(c.v)
+            return None if v.discr == 0 else ex.payload(v)
+        sub = opt(ex.field(obj, 'subschemas'))
+        if sub is not None:
+            sv = dv(sub)
+            for k_ in ('all_of', 'any_of', 'one_of'):
+                lst = opt(ex.field(sv, k_))
+                if lst is not None: out += list(dv(lst).items)
+            for k_ in ('not', 'if_schema', 'then_schema', 'else_schema'):
+                one = opt(ex.field(sv, k_))
+                if one is not None: out.append(one.cell if isinstance(one, Ref) else Cell(one))
+        arr = opt(ex.field(obj, 'array'))
+        if arr is not None:
+            items = opt(ex.field(dv(arr), 'items'))
+            if items is not None:
+                it = dv(items)
+                if ex.variant_name(it) == 'Single':
+                    one = ex.payload(it); out.append(one.cell if isinstance(one, Ref) else Cell(one))
+                else: out += list(dv(ex.payload(it)).items)
+        ob = opt(ex.field(obj, 'object'))
+        if ob is not None:
+            o = dv(ob)
+            out += [c for _, c in dv(ex.field(o, 'properties').v).items] + [c for _, c in dv(ex.field(o, 'pattern_properties').v).items]
+            ap = opt(ex.field(o, 'additional_properties'))
+            if ap is not None: out.append(ap.cell if isinstance(ap, Ref) else Cell(ap))
+        return out
+    def m_visit_schema(ex, a, c):
+        s_ = dv(a[1])
+        if isinstance(s_, Adt) and s_.ty == 'Schema' and ex.variant_name(s_) == 'Object':
+            ex.call_fn(F_visit[0], [a[0], Ref(s_.fields[s_.discr][0])])
+        return Tup([])
+    def m_visit_schema_object(ex, a, c):
+        for cell in children(dv(a[1])): m_visit_schema(ex, [a[0], Ref(cell)], c)
+        return Tup([])
+    class Gen:
+        defs = None
+    local = [(r'^schemars::visit::visit_schema::<', m_visit_schema), (r'^schemars::visit::visit_schema_object::<', m_visit_schema_object),
+             (r'SchemaGenerator::settings$', lambda ex, a, c: Ref(Cell(ex.mk_struct_partial('SchemaSettings', definitions_path=PREFIX)))),
+             (r'SchemaGenerator::definitions$', lambda ex, a, c: Ref(Cell(Gen.defs))),
+             (r'<(schemars::schema::)?Schema as Clone>::clone$', lambda ex, a, c: copy.deepcopy(dv(a[0]))),
+             (r'IndexMap::<.*>::contains_key::<', lambda ex, a, c: any(k_ == dv(a[1]) for k_, _ in dv(a[0]).items)),
+             (r'IndexMap::<.*>::insert$', lambda ex, a, c: (dv(a[0]).put(dv(a[1]), a[2]), ex.none())[1]),
+             (r'IndexMap::<.*>::new$', lambda ex, a, c: PMap())]
+    import copy
+    saved = ex.models
+    ex.models = local + ex.models
+    try:
+        for name, mk_defs, mk_root, want in worlds:
+            def h(ex):
+                Gen.defs = PMap()
+                for k_, v_ in mk_defs().items(): Gen.defs.put(k_, v_)
+                vis = ex.mk_struct('ReferenceVisitor', generator=Ref(Cell(Opaque('generator'))), dependencies=PMap())
+                vc = Cell(vis)
+                root = mk_root()
+                m_visit_schema(ex, [Ref(vc), Ref(Cell(root))], '')
+                return dv(ex.field(vc.v, 'dependencies').v)
+            outs = ex.explore(h, [])
+            chk.paths += len(outs)
+            if not outs: raise Inconclusive(f'vacuity: reference closure {name} has no path; {ex.unsupported_paths[-2:]}')
+            for pc, (k, r) in outs:
+                tag = f'reference-closure/{name}'
+                if k != 'ok':
+                    m = chk.prove(f'{tag}/no-panic', pc, z3.BoolVal(True))
+                    if m is not None: chk.mismatches.append(f'ReferenceVisitor panics on {name}: {r}')
+                    continue
+                got = [k_ for k_, _ in r.items]
+                placeholders = [k_ for k_, c in r.items if isinstance(dv(c.v), Adt) and dv(c.v).ty == 'Schema' and ex.variant_name(dv(c.v)) == 'Bool']
+                good = set(got) == want and len(got) == len(set(got)) and not placeholders
+                m = chk.prove(f'{tag}/exactly-the-reachable-definitions', pc, z3.BoolVal(not good))
+                if m is not None:
+                    case = {'op': 'openapi', 'endpoints': [], 'orders': [[]], 'versions': ['1.0.0']}
+                    nat = replay([case])[0]
+                    chk.counterexample(f'ReferenceVisitor on {name}: collected {got} (placeholders left: {placeholders}), reachable {sorted(want)}; the native document (a header whose type is a '
+                                       f'newtype around a named enum): all $refs resolve = {nat.get("refs_resolve")}', case, not nat.get('refs_resolve', False), role='reference-closure')
+    finally:
+        ex.models = saved
 
 
 def annotations(chk, ex, b, explore):
